@@ -71,6 +71,13 @@ func (v *FnVC) frameItems() (items []frameItem, all bool) {
 				}
 			}
 		case *CallE:
+			if x.Fun == "mapof" && len(x.Args) == 1 {
+				mt := v.specTerm(x.Args[0], env, nil)
+				if _, ok := mt.T.Underlying().(*types.Map); ok {
+					kk, dk, _ := v.mapKeys(mt.T)
+					items = append(items, frameItem{key: kk, ref: mt.S}, frameItem{key: dk, ref: mt.S})
+				}
+			}
 			if x.Fun == "elems" && len(x.Args) == 1 {
 				s := v.specTerm(x.Args[0], env, nil)
 				if sl, ok := s.T.Underlying().(*types.Slice); ok {
